@@ -23,7 +23,7 @@ import (
 func init() { register("C16", runC16) }
 
 func runC16(r *kit.Run) {
-	n := int64(r.Scale(24000, 1600000))
+	n := int64(r.Scale(24000, 5000000))
 	for i := int64(0); i < n && !r.Stopped(); i++ {
 		if !r.Mine(i) {
 			continue
